@@ -113,7 +113,7 @@ def bits(x: float) -> bytes:
 _CURRENT: list[Any] = [None]
 STAGES = ('correspondence-formulas', 'correspondence-dispatch', 'correspondence-angle-operand', 'correspondence-inverse',
           'correspondence-inplace-census', 'correspondence-rounding', 'correspondence-euler-float', 'search-operands',
-          'search-identities', 'search-composed', 'search-inplace', 'search-conversions')
+          'search-identities', 'search-composed', 'search-inplace', 'search-conversions', 'search-histories')
 STAGE_SECONDS = 300
 STAGE_SECONDS_AFTER_HANG = 30
 
@@ -1221,6 +1221,306 @@ def search_conversions(ck: Ck, found: dict) -> None:
                 found[key] = (desc, {'kind': 'conversion', 'vals': vals})
 
 
+# =============================================================================================== histories (round 5)
+# "Every matrix built from an Euler angle ... agrees with the Source convention": whatever was asked for before must not matter.
+# A HISTORY is a sequence of public calls that build a rotation / angle / vector from text or numbers (plus modifications of the
+# objects handed out earlier, and calls that raise) run in ONE instance of the module; every call must return, bit for bit, what
+# the same call returns as the only call of a NEW instance of the module.  A new instance = the body of math.py executed again in
+# an empty namespace: every module-level, class-level and decorator-held object (caches, memo tables, shared defaults, counters)
+# starts afresh, whatever its name and wherever in the file it lives.
+_MATH_CODE: list[Any] = [None]
+_FRESH_N = [0]
+
+
+def fresh_math() -> Any:
+    import sys
+    import types
+    import srctools.math as sm
+    if _MATH_CODE[0] is None:
+        with open(sm.__file__, encoding='utf8') as f:
+            _MATH_CODE[0] = compile(f.read(), sm.__file__, 'exec')
+    _FRESH_N[0] += 1
+    name = f'srctools._c04_fresh_math_{_FRESH_N[0]}'
+    m = types.ModuleType(name)
+    m.__file__ = sm.__file__
+    m.__package__ = 'srctools'
+    sys.modules[name] = m
+    try:
+        exec(_MATH_CODE[0], m.__dict__)
+    finally:
+        sys.modules.pop(name, None)
+    return m
+
+
+def _hist_entries() -> dict[str, Any]:
+    E: dict[str, Any] = {}
+
+    def vec_of(m: Any, v: Any) -> Any:
+        return None if v is None else m.Vec(*v)
+    for mc in ('Matrix', 'FrozenMatrix'):
+        E[f'{mc}.from_angstr'] = lambda m, a, mc=mc: getattr(m, mc).from_angstr(*a)                    # text[, p, y, r]
+        E[f'{mc}.from_angle'] = lambda m, a, mc=mc: getattr(m, mc).from_angle(*a)                      # p, y, r
+        E[f'{mc}.from_angle(Angle)'] = lambda m, a, mc=mc: getattr(m, mc).from_angle(m.Angle(*a))
+        E[f'{mc}.from_angle(FrozenAngle)'] = lambda m, a, mc=mc: getattr(m, mc).from_angle(m.FrozenAngle(*a))
+        for ax in ('pitch', 'yaw', 'roll'):
+            E[f'{mc}.from_{ax}'] = lambda m, a, mc=mc, ax=ax: getattr(getattr(m, mc), 'from_' + ax)(*a)
+        E[f'{mc}.axis_angle'] = lambda m, a, mc=mc: getattr(m, mc).axis_angle(tuple(a[:3]), a[3])
+        E[f'{mc}.from_basis'] = lambda m, a, mc=mc: getattr(m, mc).from_basis(x=vec_of(m, a[0]), y=vec_of(m, a[1]), z=vec_of(m, a[2]))
+        E[f'{mc}()'] = lambda m, a, mc=mc: getattr(m, mc)()
+        E[f'{mc}(matrix)'] = lambda m, a, mc=mc: getattr(m, mc)(m.Matrix.from_angle(*a))
+    for ac in ('Angle', 'FrozenAngle'):
+        E[f'{ac}.from_str'] = lambda m, a, ac=ac: getattr(m, ac).from_str(*a)
+        E[f'{ac}()'] = lambda m, a, ac=ac: getattr(m, ac)(*a)                                          # 0..3 numbers
+        E[f'{ac}.from_basis'] = lambda m, a, ac=ac: getattr(m, ac).from_basis(x=vec_of(m, a[0]), y=vec_of(m, a[1]), z=vec_of(m, a[2]))
+    for vc in ('Vec', 'FrozenVec'):
+        E[f'{vc}.from_str'] = lambda m, a, vc=vc: getattr(m, vc).from_str(*a)
+        E[f'{vc}()'] = lambda m, a, vc=vc: getattr(m, vc)(*a)
+        E[f'{vc} @ from_angstr'] = lambda m, a, vc=vc: getattr(m, vc)(*a[0]) @ m.Matrix.from_angstr(*a[1])
+        E[f'{vc} @ Angle.from_str'] = lambda m, a, vc=vc: getattr(m, vc)(*a[0]) @ m.Angle.from_str(*a[1])
+    E['parse_vec_str'] = lambda m, a: m.parse_vec_str(*a)
+    E['to_matrix(None)'] = lambda m, a: m.to_matrix(None)
+    E['to_matrix(Angle)'] = lambda m, a: m.to_matrix(m.Angle(*a))
+    E['to_matrix(tuple)'] = lambda m, a: m.to_matrix(tuple(a))
+    E['Vec.rotate_by_str'] = lambda m, a: m.Vec(*a[0]).rotate_by_str(*a[1])
+    E['Matrix.to_angle'] = lambda m, a: m.Matrix.from_angle(*a).to_angle()
+    return E
+
+
+HIST_ENTRIES = _hist_entries()
+HIST_TEXT_ENTRIES = ['Matrix.from_angstr', 'FrozenMatrix.from_angstr', 'Angle.from_str', 'FrozenAngle.from_str', 'Vec.from_str',
+                     'FrozenVec.from_str', 'parse_vec_str']
+HIST_TEXT_ROT = ['Vec @ from_angstr', 'FrozenVec @ from_angstr', 'Vec @ Angle.from_str', 'FrozenVec @ Angle.from_str', 'Vec.rotate_by_str']
+# texts that do not parse (the fallback numbers decide) and texts that do (the fallback must not matter)
+HIST_BAD_TEXTS = ['', '0 90', 'up', '12 34 x', ' ', '1 2 3 4', '0,90,0', '(', 'nan nan', '<>']
+HIST_GOOD_TEXTS = ['0 90 0', '(45 270 12.5)', '<12 34 56>', '[12 34 -56]', '{1 2 3}', '90 0 0', '0 0 0', ' -0 180 -90 ', '1e1 2.5e-1 -3']
+HIST_FALLBACKS = [(0.0, 0.0, 0.0), (0.0, 90.0, 0.0), (270.0, 15.0, 80.0), (-90.0, 0.0, 0.0), (30.0, 0.0, 45.0), (1.0, 2.0, 3.0)]
+
+
+def hsnap(o: Any) -> Any:
+    """Class name and bit patterns of what a call returned (in whichever instance of the module), JSON-friendly."""
+    def fl(x: Any) -> str:
+        return x.hex() if isinstance(x, float) else repr(x)
+    if isinstance(o, BaseException):
+        return ['raises', type(o).__name__]
+    n = type(o).__name__
+    try:
+        if n in ('Vec', 'FrozenVec'):
+            return [n] + [fl(x) for x in (o._x, o._y, o._z)]
+        if n in ('Angle', 'FrozenAngle'):
+            return [n] + [fl(x) for x in (o._pitch, o._yaw, o._roll)]
+        if n in ('Matrix', 'FrozenMatrix'):
+            return [n] + [fl(getattr(o, s)) for s in ('_aa', '_ab', '_ac', '_ba', '_bb', '_bc', '_ca', '_cb', '_cc')]
+    except AttributeError as e:
+        return ['broken', n, str(e)]
+    if isinstance(o, tuple):
+        return ['tuple'] + [fl(x) for x in o]
+    return ['other', repr(o)[:80]]
+
+
+def hshow(s: Any) -> str:
+    if s and s[0] in ('raises', 'other', 'broken'):
+        return ' '.join(map(str, s))
+    def num(x: str) -> str:
+        try:
+            return format(float.fromhex(x), '.6g')
+        except ValueError:
+            return x
+    return f'{s[0]}(' + ', '.join(num(x) for x in s[1:]) + ')'
+
+
+def _hist_modify(m: Any, o: Any) -> None:
+    """What a caller may do with a mutable object it was handed: the object is the caller's."""
+    n = type(o).__name__
+    if n == 'Matrix':
+        o @= m.Matrix.from_yaw(33.0)
+    elif n == 'Vec':
+        o += (1.0, 2.0, 3.0)
+    elif n == 'Angle':
+        o.yaw += 33.0
+        o.pitch = 12.0
+
+
+def run_history(steps: list) -> list:
+    """Run the steps in ONE new instance of the module; per step the snapshot of what the call returned (None for a modification)."""
+    import warnings
+    m = fresh_math()
+    objs: list[Any] = []
+    out: list[Any] = []
+    with warnings.catch_warnings():
+        warnings.simplefilter('ignore')
+        for st in steps:
+            if st[0] == 'call':
+                try:
+                    o = HIST_ENTRIES[st[1]](m, st[2])
+                except Exception as e:      # noqa: BLE001 - an exception is a result like any other: the same alone and in a history
+                    o = e
+                objs.append(o)
+                out.append(hsnap(o))
+            else:
+                k = st[1]
+                if 0 <= k < len(objs) and objs[k] is not None:
+                    try:
+                        _hist_modify(m, objs[k])
+                    except Exception:      # noqa: BLE001
+                        pass
+                objs.append(None)
+                out.append(None)
+    return out
+
+
+_ALONE: dict[str, Any] = {}
+
+
+def call_alone(st: list) -> Any:
+    key = repr(st)
+    if key not in _ALONE:
+        _ALONE[key] = run_history([st])[0]
+    return _ALONE[key]
+
+
+def history_problem(steps: list) -> tuple[int, str, str] | None:
+    """(index, key, description) of the first call of the history that does not return what it returns alone."""
+    _CURRENT[0] = {'kind': 'history', 'steps': steps}
+    res = run_history(steps)
+    for i, (st, r) in enumerate(zip(steps, res)):
+        if st[0] != 'call':
+            continue
+        alone = call_alone(st)
+        if r != alone:
+            before = sum(1 for s in steps[:i] if s[0] == 'call')
+            return (i, f'history:{st[1]}',
+                    f'{st[1]}{tuple(st[2])!r} returned {hshow(r)} after {before} earlier call(s) in the same process, but '
+                    f'{hshow(alone)} as the first call of a new process')
+    return None
+
+
+def _hist_drop(steps: list, j: int) -> list:
+    """The history without step j (modifications of its result go too; references to later steps move up)."""
+    out = []
+    for i, st in enumerate(steps):
+        if i == j or (st[0] == 'modify' and st[1] == j):
+            continue
+        out.append(['modify', st[1] - 1] if st[0] == 'modify' and st[1] > j else st)
+    return out
+
+
+def shrink_history(steps: list, key: str) -> list:
+    pr = history_problem(steps)
+    if pr is not None:
+        steps = steps[:pr[0] + 1]
+    changed = True
+    while changed and len(steps) > 1:
+        changed = False
+        for j in range(len(steps) - 1):
+            cand = _hist_drop(steps, j)
+            pr = history_problem(cand)
+            if pr is not None and pr[1] == key:
+                steps = cand[:pr[0] + 1]
+                changed = True
+                break
+    return steps
+
+
+def _hist_text_args(rng: random.Random, texts: list[str]) -> list:
+    t = rng.choice(texts)
+    r = rng.random()
+    if r < 0.15:
+        return [t]
+    fb = list(rng.choice(HIST_FALLBACKS)) if r < 0.8 else [round(rng.uniform(-360, 360), 3) for _ in range(3)]
+    return [t] + fb[:rng.choice([3, 3, 3, 2, 1])]
+
+
+def gen_history(rng: random.Random) -> list:
+    texts = rng.sample(HIST_BAD_TEXTS, rng.choice([1, 1, 2])) + rng.sample(HIST_GOOD_TEXTS, rng.choice([0, 1, 1]))
+    entries = rng.sample(HIST_TEXT_ENTRIES, rng.choice([1, 2, 3]))
+    steps: list = []
+    for _ in range(rng.randrange(2, 10)):
+        r = rng.random()
+        calls = [i for i, s in enumerate(steps) if s[0] == 'call']
+        if r < 0.55:
+            steps.append(['call', rng.choice(entries), _hist_text_args(rng, texts)])
+        elif r < 0.65:
+            steps.append(['call', rng.choice(HIST_TEXT_ROT), [list(gen_vec(rng)), _hist_text_args(rng, texts)]])
+        elif r < 0.75 and calls:
+            steps.append(['modify', rng.choice(calls)])
+        else:
+            ang = list(gen_angle(rng)[0]) if rng.random() < 0.5 else list(rng.choice(HIST_FALLBACKS))
+            e = rng.choice(['from_angle', 'from_angle(Angle)', 'from_angle(FrozenAngle)', 'from_pitch', 'from_yaw', 'from_roll',
+                            'axis_angle', 'from_basis', '()', '(matrix)', 'Angle()', 'Vec()', 'to_matrix', 'Angle.from_basis',
+                            'to_angle', 'error'])
+            mc = rng.choice(['Matrix', 'FrozenMatrix'])
+            if e in ('from_angle', 'from_angle(Angle)', 'from_angle(FrozenAngle)', '(matrix)'):
+                steps.append(['call', f'{mc}.{e}' if e != '(matrix)' else f'{mc}(matrix)', ang])
+            elif e in ('from_pitch', 'from_yaw', 'from_roll'):
+                steps.append(['call', f'{mc}.{e}', [ang[0]]])
+            elif e == 'axis_angle':
+                steps.append(['call', f'{mc}.axis_angle', list(gen_vec(rng)) + [ang[1]]])
+            elif e in ('from_basis', 'Angle.from_basis'):
+                rows = ref_from_angle(*ang)
+                a3: list = [list(rows[0]), list(rows[1]), list(rows[2])]
+                a3[rng.randrange(3)] = None
+                if rng.random() < 0.3:
+                    a3[rng.randrange(3)] = None
+                steps.append(['call', f'{mc}.from_basis' if e == 'from_basis' else rng.choice(['Angle', 'FrozenAngle']) + '.from_basis', a3])
+            elif e == '()':
+                steps.append(['call', f'{mc}()', []])
+            elif e == 'Angle()':
+                steps.append(['call', rng.choice(['Angle()', 'FrozenAngle()']), ang[:rng.choice([0, 1, 2, 3, 3])]])
+            elif e == 'Vec()':
+                steps.append(['call', rng.choice(['Vec()', 'FrozenVec()']), list(gen_vec(rng))[:rng.choice([0, 1, 2, 3, 3])]])
+            elif e == 'to_matrix':
+                k = rng.choice(['to_matrix(None)', 'to_matrix(Angle)', 'to_matrix(tuple)'])
+                steps.append(['call', k, [] if k == 'to_matrix(None)' else ang])
+            elif e == 'to_angle':
+                steps.append(['call', 'Matrix.to_angle', ang])
+            else:   # a call that raises half-way, after which the caller carries on
+                steps.append(rng.choice([['call', f'{mc}.from_angle', ['x', 0.0, 0.0]], ['call', f'{mc}.from_basis', [[0.0, 0.0, 0.0], None, None]],
+                                         ['call', f'{mc}.from_angstr', ['', 'x', 0.0, 0.0]], ['call', 'Angle()', ['a', 1.0, 2.0]],
+                                         ['call', f'{mc}.axis_angle', [0.0, 0.0, 0.0, 90.0]], ['call', 'Vec.from_str', ['', 'q']]]))
+    return steps
+
+
+def history_sweeps() -> list[list]:
+    """Deterministic part: per text entry point, every text with every fallback, twice over (so every text has been seen before
+    with another fallback), Matrix results modified in between."""
+    out = []
+    texts = HIST_BAD_TEXTS[:6] + HIST_GOOD_TEXTS[:3]
+    for e in HIST_TEXT_ENTRIES + HIST_TEXT_ROT:
+        steps: list = []
+        for _rnd in range(2):
+            for fb in HIST_FALLBACKS[:4]:
+                for t in texts:
+                    args = [t] + list(fb)
+                    steps.append(['call', e, args if e in HIST_TEXT_ENTRIES else [[128.0, -64.0, 16.0], args]])
+                    if len(steps) % 5 == 0:
+                        steps.append(['modify', len(steps) - 1])
+        out.append(steps)
+    return out
+
+
+def search_histories(ck: Ck, found: dict) -> None:
+    def one(steps: list, group: str) -> None:
+        ck.count(group)
+        calls = [s for s in steps if s[0] == 'call']
+        for s in calls:
+            ck.hist('history_entry_points', s[1])
+        ck.hist('history_length', min(len(calls), 10) if len(calls) < 10 else '10+')
+        if len(calls) >= 2:
+            ck.seen(('history', repr(steps)))
+        pr = history_problem(steps)
+        if pr is not None and pr[1] not in found:
+            small = shrink_history(steps, pr[1])
+            pr2 = history_problem(small) or pr
+            found[pr2[1]] = (pr2[2] + f'; history of {len(small)} step(s): ' + '; '.join(
+                f'{s[1]}{tuple(s[2])!r}' if s[0] == 'call' else f'modify the result of step {s[1]}' for s in small)[:600],
+                {'kind': 'history', 'steps': small})
+    for steps in history_sweeps():
+        one(steps, 'history_sweeps')
+    for _ in range(ck.budget(150, 2000)):
+        one(gen_history(ck.rng), 'history_cases')
+    ck.sample({'history': gen_history(random.Random(ck.seed))})
+
+
 # =============================================================================================== axioms
 def theorems_with_axioms(ck: Ck, props_file: str = 'Props/C04.v') -> None:
     """Same job as Ck.theorems (one `theorem:` obligation per theorem, axioms recorded), with a complete parser:
@@ -1682,6 +1982,7 @@ def run(ck: Ck) -> None:
     guarded(ck, found, 'search-composed', search_composed, ck, found)
     guarded(ck, found, 'search-inplace', search_inplace, ck, found)
     guarded(ck, found, 'search-conversions', search_conversions, ck, found)
+    guarded(ck, found, 'search-histories', search_histories, ck, found)
     for key, (what, rp) in sorted(found.items()):
         ck.violation(key, what, rp)
     keys = set(found)
@@ -1855,6 +2156,18 @@ def _replay(data: dict) -> int:
         print('conversions of', r['vals'])
         print('problems  :', probs or 'none')
         return 1 if probs else 0
+    if r.get('kind') == 'history':
+        steps = r['steps']
+        res = run_history(steps)
+        for i, (st, out) in enumerate(zip(steps, res)):
+            if st[0] == 'call':
+                alone = call_alone(st)
+                print(f'  step {i}: {st[1]}{tuple(st[2])!r} -> {hshow(out)}' + ('' if out == alone else f'   BUT alone in a new process: {hshow(alone)}'))
+            else:
+                print(f'  step {i}: the caller modifies the object returned by step {st[1]}')
+        pr = history_problem(steps)
+        print('problem   :', pr[2] if pr else 'none')
+        return 1 if pr else 0
     if r.get('kind') == 'stage':
         print('no single input was in flight; re-run the check to reproduce:', r)
         return 1
